@@ -7,6 +7,7 @@ import Verif.Model.Index
 import Verif.Spec.Index
 import Verif.Model.OpsDriver
 import Verif.Spec.Classify
+import Verif.Model.FlatDriver
 import Verif.Generated.Facts
 
 open Lean
@@ -49,6 +50,7 @@ def dispatch (op : String) (inp : J) (impl : Option J) : J :=
               ("shape", .str (reprStr shape)),
               ("expectedComplex", match Spec.Classify.expectedComplex shape with | some b => .bool b | none => .null),
               ("modelCoherent", match m with | .ok f => .bool (Spec.Classify.coherent f) | _ => .null)])])
+  | "flatten" => FlatDriver.run facts inp
   | "ops" => .obj [("answers", OpsDriver.run facts inp)]
   | "mixin" =>
     let primary := (inp.get? "primary").getD .null
